@@ -1,0 +1,13 @@
+//go:build verif
+
+package wir
+
+// Verification hooks (build tag verif only): linearization points of the
+// current-module global. The harness installs VerifHook; it may block.
+var VerifHook func(ev string, m *Module)
+
+func VerifEvent(ev string, m *Module) {
+	if VerifHook != nil {
+		VerifHook(ev, m)
+	}
+}
